@@ -191,6 +191,16 @@ class ClientGenerator:
                 tmp_out_dir_for_diff.mkdir(parents=True, exist_ok=True)
                 tmp_core_dir_for_diff.mkdir(parents=True, exist_ok=True)  # Ensure core temp dir always exists
 
+                # Give the temp tree the package structure of the real one (see the direct branch below): the
+                # post-processor sorts imports by whether `a.b...` is a local package, i.e. by these files
+                for tmp_pkg_dir in (tmp_out_dir_for_diff, tmp_core_dir_for_diff):
+                    current_tmp_dir = tmp_pkg_dir
+                    while current_tmp_dir != tmp_project_root_for_diff:
+                        tmp_init_path = current_tmp_dir / "__init__.py"
+                        if not tmp_init_path.exists():
+                            tmp_init_path.write_text("")
+                        current_tmp_dir = current_tmp_dir.parent
+
                 # A shared core keeps a registry with the error codes of *all* its clients. Seed the temp core
                 # with a copy (the real tree is only read) so that the comparison sees the same registry.
                 existing_registry = core_dir / ".exception_registry.json"
